@@ -344,9 +344,51 @@ def r3_parse_actions(ctx, m) -> None:
     r.floor("C02.R3", 11)
 
 
+SEL_NAMES = ["sel", "sel_1", "sel-2", "selection", "_a", "_b", "_filt_abcdefghij_flt", "_filt_abcdefghij_sel_1", "_cond_xyz", "filter", "Sel"]
+SEL_PATTERNS = ["them", "sel*", "sel_*", "*_1", "sel", "_*", "_f*", "_filt*", "_filt_abcdefghij_*", "_filt_abcdefghij_sel*", "*", "s*n", "*l*", "nomatch*", "_a", "sel_*_1", "s*l*n"]
+
+
+def _r4_selection_table(ctx, fi: FuncInfo) -> None:
+    """Which detections a selector pattern denotes, tabulated: resolve_referenced_detections is interpreted (sa.tabulate, the
+    real `re` module as the only library) for each pattern over a map of detection names; the result must be exactly the
+    names that (1) match the pattern as a whole with '*' as the only wildcard ('them' = every name), (2) start with '_' only
+    if the pattern does, (3) carry the filter prefix '_filt_' only if the pattern carries it (filter-internal patterns)."""
+    import re as _re
+    from ..tabulate import Interp, Raised
+    r, prog = ctx.r, ctx.prog
+
+    class _CI:
+        def __init__(self, args):
+            self.name = args[0]
+
+    dets = type("D", (), {})()
+    dets.detections = {n: object() for n in SEL_NAMES}
+    bad = []
+    for pat in SEL_PATTERNS:
+        me = type("S", (), {})()
+        me.pattern = pat
+        it = Interp({"self": me, "detections": dets, "re": _re, "ConditionIdentifier": _CI}, max_steps=5000)
+        try:
+            out = it.call(fi.node.body)
+        except Raised as ex:
+            bad.append((pat, f"raises {ex}"))
+            continue
+        got = [x.name for x in out]
+        rx = _re.compile(".*" if pat == "them" else ".*".join(_re.escape(x) for x in pat.split("*")))
+        want = [n for n in SEL_NAMES if rx.fullmatch(n) and (pat.startswith("_") or not n.startswith("_")) and (pat.startswith("_filt_") or not n.startswith("_filt_"))]
+        if got != want:
+            extra, missing = [n for n in got if n not in want], [n for n in want if n not in got]
+            bad.append((pat, f"selects {got}, denoted are {want}" + (f" — captured: {extra}" if extra else "") + (f" — missed: {missing}" if missing else "")))
+    if bad:
+        pat, why = bad[0]
+        r.violation("C02.R4", fi.qual, f"selector pattern {pat!r}", f"{why} (+{len(bad) - 1} more pattern(s)): a pattern denotes the detection names it matches as a whole ('*' the only wildcard); tool-injected '_…' names belong to patterns that start with '_', and the renamed detections of an applied filter ('_filt_<random>_…') only to that filter's own patterns — captured by a rule pattern such as '1 of _*' the rule fires on every event the filter matches", fi.loc)
+    else:
+        r.ok("C02.R4", fi.qual, f"selection table: {len(SEL_PATTERNS)} patterns x {len(SEL_NAMES)} detection names interpreted — whole-name match, underscore and filter-prefix predicates as specified", fi.loc)
+
+
 def r4_selector(ctx, m, pat_alpha: str) -> None:
     r, prog = ctx.r, ctx.prog
-    r.rule("C02.R4", "selector resolution: pattern alphabet has no regex metacharacter besides '*', the pattern is compiled from replace('*', '.*') and applied with fullmatch over all detection names, 'them' matches all, the underscore predicate is present, quantifiers map 1|any→OR and all→AND")
+    r.rule("C02.R4", "selector resolution: pattern alphabet has no regex metacharacter besides '*', the pattern is compiled from replace('*', '.*') and applied with fullmatch over all detection names, 'them' matches all, '_…' names only for '_…' patterns and '_filt_…' names only for '_filt_…' patterns (selection table interpreted over sample names), quantifiers map 1|any→OR and all→AND")
     loc = f"{m.relpath}:{_module_assign(m, 'identifier_pattern').lineno}"
     meta = (set(pat_alpha) - {"*"}) & REGEX_META
     if meta:
@@ -374,54 +416,7 @@ def r4_selector(ctx, m, pat_alpha: str) -> None:
     if "*" not in pat_alpha or "_" not in pat_alpha:
         r.violation("C02.R4", MOD + ".identifier_pattern", f"alphabet {''.join(sorted(set(pat_alpha)))!r}", "pattern alphabet must contain '*' and '_'", loc)
     fi = prog.func(MOD + ".ConditionSelector.resolve_referenced_detections")
-    compiles = [c for c in walk_no_nested(fi.node) if isinstance(c, ast.Call) and call_name(c) == "re.compile"]
-    for c in compiles:
-        cl = f"{m.relpath}:{c.lineno}"
-        arg = unparse(c.args[0]).replace('"', "'")
-        gs = atomic_guards(guards_at(prog, fi, c))
-        if arg == "'.*'" and ("self.pattern == 'them'", True) in gs:
-            r.ok("C02.R4", fi.qual, "them → '.*'", cl)
-        elif arg == "self.pattern.replace('*', '.*')" and (("self.pattern == 'them'", False) in gs or ("self.pattern != 'them'", True) in gs):
-            r.ok("C02.R4", fi.qual, "pattern.replace('*', '.*')", cl)
-        else:
-            r.violation("C02.R4", fi.qual, short(c, 100), "selector regex is not built as '.*' for 'them' / pattern.replace('*', '.*') otherwise", cl)
-    if len(compiles) < 2:
-        r.violation("C02.R4", fi.qual, "re.compile(...)", "expected the two regex constructions ('them' and wildcard pattern)", fi.loc)
-    rets = [x for x in walk_no_nested(fi.node) if isinstance(x, ast.Return)]
-    for rt in rets:
-        rl = f"{m.relpath}:{rt.lineno}"
-        v = rt.value
-        if not isinstance(v, ast.ListComp) or len(v.generators) != 1:
-            r.violation("C02.R4", fi.qual, stmt_head(rt), "a return path does not select detections with the compiled pattern (list comprehension over all detection names expected)", rl)
-            continue
-        g = v.generators[0]
-        it = unparse(g.iter)
-        var = unparse(g.target)
-        conds = []
-        for i in g.ifs:
-            conds += [unparse(x) for x in (i.values if isinstance(i, ast.BoolOp) and isinstance(i.op, ast.And) else [i])]
-        conds_n = [c.replace('"', "'") for c in conds]
-        if it not in ("detections.detections.keys()", "detections.detections"):
-            r.violation("C02.R4", fi.qual, f"for {var} in {it}", "selector does not range over all detection names of the rule", rl)
-        if unparse(v.elt).replace(" ", "") != f"ConditionIdentifier([{var}])":
-            r.violation("C02.R4", fi.qual, unparse(v.elt), "selected detections must be wrapped as ConditionIdentifier([name])", rl)
-        fm = [c for c in conds_n if c in (f"r.fullmatch({var})",)]
-        if not fm:
-            bad = [c for c in conds_n if ".match(" in c or ".search(" in c or "startswith" in c or "endswith" in c or " in " in c]
-            r.violation("C02.R4", fi.qual, " and ".join(conds_n)[:160],
-                        f"detection names are not tested with fullmatch of the compiled pattern ({bad[0] if bad else 'no pattern test'}): prefix/suffix/substring tests accept names the pattern does not denote", rl)
-        else:
-            r.ok("C02.R4", fi.qual, f"r.fullmatch({var})", rl)
-        up = f"(self.pattern.startswith('_') or not {var}.startswith('_'))"
-        if up in conds_n or up[1:-1] in conds_n:
-            r.ok("C02.R4", fi.qual, "underscore predicate present", rl)
-        else:
-            r.violation("C02.R4", fi.qual, " and ".join(conds_n)[:160], "underscore predicate missing or altered: tool-injected '_…' detections would be captured by rule selectors (or filter patterns could not reach them)", rl)
-        extra = [c for c in conds_n if c not in (f"r.fullmatch({var})", up, up[1:-1])]
-        if extra:
-            r.violation("C02.R4", fi.qual, " and ".join(extra)[:160], "additional filter on the selected detections", rl)
-    if len(rets) != 1:
-        r.violation("C02.R4", fi.qual, f"{len(rets)} return statements", "resolve_referenced_detections has more than one result path; each must be equivalent to fullmatch of the wildcard pattern", fi.loc)
+    _r4_selection_table(ctx, fi)
     # quantifier table
     pi = prog.func(MOD + ".ConditionSelector.__post_init__")
     table = {}
@@ -447,7 +442,7 @@ def r4_selector(ctx, m, pat_alpha: str) -> None:
         r.ok("C02.R4", pp.qual, "selector → cond_class(resolved identifiers).postprocess(...)", pp.loc)
     else:
         r.violation("C02.R4", pp.qual, "ConditionSelector.postprocess", "selector is no longer replaced by cond_class over exactly the resolved identifiers", pp.loc)
-    r.floor("C02.R4", 8)
+    r.floor("C02.R4", 7)
 
 
 def r5_cache(ctx) -> None:
@@ -484,15 +479,13 @@ FILTER_SAMPLES = [  # filter condition -> the same condition over the renamed de
 ]
 
 
-def r6_filter_condition_rewrite(ctx) -> None:
-    """A filter's condition is spliced into the rule's condition as text: its detections are renamed with a drawn prefix
-    and the condition text is rewritten token by token. The rewriting must classify the words like the grammar does:
-    not/and/or are operators, 1|any|all are quantifiers only in front of `of`, `of` only behind a quantifier, `them` only
-    as the pattern of a selector — everything else is a detection name (whole word) and gets the prefix."""
-    from ..tabulate import Interp, Raised
+def interpret_filter_application(ctx, cond: str, rule_detections=None, draws=("x",)):
+    """Interpret SigmaFilter.apply_on_rule (sa.tabulate; nothing of pySigma runs) for a filter with condition ``cond`` whose
+    detections are the plain names in it, applied to a stand-in rule (detections ``rule_detections``, condition 'sel').
+    ``draws`` are the letters the stand-in random module returns for successive draws. Returns (rule stand-in, filter names)."""
+    from ..tabulate import Interp
     import re as _re
-    r, prog = ctx.r, ctx.prog
-    r.rule("C02.R6", "filter condition rewriting reads words like the condition grammar: SigmaFilter.apply_on_rule, interpreted on sample conditions (sa.tabulate; stand-ins for rule, filter and the random module), renames every detection name — also one called all/any/of/them/1 — and leaves operators and selector keywords alone")
+    prog = ctx.prog
     f = prog.func("sigma.filters.SigmaFilter.apply_on_rule")
     cls = prog.cls("sigma.filters.SigmaFilter")
     consts = {}
@@ -510,7 +503,7 @@ def r6_filter_condition_rewrite(ctx) -> None:
 
     class _Det:
         def __init__(self):
-            self.detections = {"sel": "D(sel)"}
+            self.detections = dict(rule_detections or {"sel": "D(sel)"})
             self.condition = ["sel"]
 
         def __post_init__(self):
@@ -520,33 +513,45 @@ def r6_filter_condition_rewrite(ctx) -> None:
         def __init__(self):
             self.detection = _Det()
 
+    state = {"n": 0}
+
     class _Rand:
         @staticmethod
         def choices(pop, k=1, **kw):
-            return ["x"] * k
+            c = draws[min(state["n"], len(draws) - 1)]
+            state["n"] += 1
+            return [c] * k
 
         @staticmethod
         def choice(pop):
-            return "x"
+            c = draws[min(state["n"] // 10, len(draws) - 1)]
+            state["n"] += 1
+            return c
 
+    names = sorted(set(_re.findall(r"[A-Za-z0-9_*-]+", cond)) - {"not", "and", "or"})
+    filt = type("F", (), {})()
+    filt.detections = {n: f"D({n})" for n in names if "*" not in n}
+    filt.condition = [cond]
+    me = type("S", (), {})()
+    me.filter = filt
+    me._should_apply_on_rule = lambda rule: True
+    for k, v in consts.items():
+        setattr(me, k, v)
+    rule = _Rule()
+    env = {"self": me, "rule": rule, "SigmaCorrelationRule": _Corr, "random": _Rand, "re": _re,
+           "string": type("string", (), {"ascii_lowercase": "abcdefghijklmnopqrstuvwxyz"}),
+           "copy": type("copy", (), {"deepcopy": staticmethod(lambda x: x), "copy": staticmethod(lambda x: x)})}
+    it = Interp(env, max_steps=20000)
+    it.call(f.node.body)
+    return rule, filt
+
+
+def filter_rewrite_failures(ctx, samples) -> list[tuple[str, str]]:
+    from ..tabulate import Raised
     bad = []
-    for cond, want in FILTER_SAMPLES:
-        names = sorted(set(_re.findall(r"[A-Za-z0-9_*-]+", cond)) - {"not", "and", "or"})
-        filt = type("F", (), {})()
-        filt.detections = {n: f"D({n})" for n in names if "*" not in n}
-        filt.condition = [cond]
-        me = type("S", (), {})()
-        me.filter = filt
-        me._should_apply_on_rule = lambda rule: True
-        for k, v in consts.items():
-            setattr(me, k, v)
-        rule = _Rule()
-        env = {"self": me, "rule": rule, "SigmaCorrelationRule": _Corr, "random": _Rand, "re": _re,
-               "string": type("string", (), {"ascii_lowercase": "abcdefghijklmnopqrstuvwxyz"}),
-               "copy": type("copy", (), {"deepcopy": staticmethod(lambda x: x), "copy": staticmethod(lambda x: x)})}
-        it = Interp(env, max_steps=20000)
+    for cond, want in samples:
         try:
-            it.call(f.node.body)
+            rule, filt = interpret_filter_application(ctx, cond)
         except Raised as ex:
             bad.append((cond, f"raises {ex}"))
             continue
@@ -557,8 +562,22 @@ def r6_filter_condition_rewrite(ctx) -> None:
             continue
         P = prefixes.pop()
         exp = "(sel) and (" + want.replace("P_", P + "_") + ")"
-        if got != exp:
+        if not P.startswith("_filt_"):
+            bad.append((cond, f"the drawn prefix is {P!r}: it must start with the reserved '_filt_' (rule selectors keep away from exactly these names)"))
+        elif got != exp:
             bad.append((cond, f"is rewritten to {got!r}, the grammar reads it as {exp!r}"))
+    return bad
+
+
+def r6_filter_condition_rewrite(ctx) -> None:
+    """A filter's condition is spliced into the rule's condition as text: its detections are renamed with a drawn prefix
+    and the condition text is rewritten token by token. The rewriting must classify the words like the grammar does:
+    not/and/or are operators, 1|any|all are quantifiers only in front of `of`, `of` only behind a quantifier, `them` only
+    as the pattern of a selector — everything else is a detection name (whole word) and gets the prefix."""
+    r, prog = ctx.r, ctx.prog
+    r.rule("C02.R6", "filter condition rewriting reads words like the condition grammar: SigmaFilter.apply_on_rule, interpreted on sample conditions (sa.tabulate; stand-ins for rule, filter and the random module), renames every detection name — also one called all/any/of/them/1 — and leaves operators and selector keywords alone")
+    f = prog.func("sigma.filters.SigmaFilter.apply_on_rule")
+    bad = filter_rewrite_failures(ctx, FILTER_SAMPLES)
     if bad:
         cond, why = bad[0]
         r.violation("C02.R6", f.qual, f"filter condition {cond!r}", f"{why} (+{len(bad) - 1} more sample(s)): a detection name is a whole word wherever the grammar expects an operand; a keyword left unprefixed refers to a detection that was renamed (error) or to a detection of the rule itself (silently another function)", f.loc)
